@@ -12,7 +12,7 @@
 (***************************************************************************)
 EXTENDS Integers, Sequences, SeqX
 CONSTANTS Datasets, MaxDepth, LoadShifts, CycleShifts
-LoadShiftsMC == {1, -2, -14}
+LoadShiftsMC == {1, -2, -14, 20}        \* 2^20: the same tests with loads in Pa instead of MPa
 CycleShiftsMC == {2, -1}
 VARIABLES cfg, hist
 vars == <<cfg, hist>>
